@@ -273,6 +273,12 @@ func (a *Analyzer) FileNameTaint() *TaintReport {
 					}
 					continue
 				}
+				if gname == "net/url.PathUnescape" || gname == "net/url.QueryUnescape" {
+					// the name of a file on disk is not URL-encoded: decoding %XX in it makes the tool read another path than the
+					// one it was given as soon as a directory name contains a valid escape
+					sink(r, "the file path is percent-decoded by "+gname+" (a directory or file name containing %XX names another file afterwards)")
+					continue
+				}
 				// library call: the result carries the taint if it is string-like (but not errors)
 				if cv, ok := r.(*ssa.Call); ok {
 					switch gname {
